@@ -206,6 +206,84 @@ def stereo_marks(mol):
             sorted((min(n, m), max(n, m), b._stereo) for n, m, b in mol.bonds() if b._stereo is not None))
 
 
+def shared_state(objs):
+    """mutable state that two distinct molecule objects (or a molecule and its transaction backup) share: description or None.
+    Atoms, bonds, their Vector and ring-size sets, the atom/bond dicts, the metadata dict and the cache dict must all be
+    private to their molecule (memoised *values* are frozen and may be shared)."""
+    owners = {}
+    def claim(x, who, what):
+        if x is None:
+            return None
+        k = id(x)
+        if k in owners and owners[k][0] != who:
+            return f'{what} shared by object {owners[k][0]} and object {who}'
+        owners[k] = (who, x)
+        return None
+    pool = []
+    for i, m in enumerate(objs):
+        pool.append((str(i), m))
+        try:
+            bk = m._backup
+        except AttributeError:
+            bk = None
+        if bk is not None:
+            pool.append((f'{i}.backup', bk))
+    for who, m in pool:
+        for what, x in (('_atoms dict', m._atoms), ('_bonds dict', m._bonds), ('meta dict', getattr(m, '_meta', None)),
+                        ('__dict__', m.__dict__)):
+            d = claim(x, who, what)
+            if d:
+                return d
+        for n, a in m._atoms.items():
+            for what, x in (('atom object', a), ('Vector of an atom', getattr(a, '_xy', None)),
+                            ('ring_sizes set of an atom', getattr(a, '_ring_sizes', None) or None)):
+                d = claim(x, who, what)
+                if d:
+                    return d
+        for n, ms in m._bonds.items():
+            d = claim(ms, who, 'neighbour dict')
+            if d:
+                return d
+            for k, b in ms.items():
+                d = claim(b, who, 'bond object')
+                if d:
+                    return d
+    return None
+
+
+def reaction_copy_independent():
+    """ReactionContainer.copy (anchored by the property): metadata touched / empty / filled, then edits of the copy
+    (meta, name, molecules) must leave the source unchanged and share no mutable state.  Returns description or None."""
+    from chython import smiles
+    for touch in ('none', 'read', 'fill', 'clear'):
+        r = smiles('CC(=O)O.OC>>CC(=O)OC.O')
+        if touch == 'read':
+            r.meta  # noqa
+        elif touch == 'fill':
+            r.meta['id'] = 7
+        elif touch == 'clear':
+            r.meta['id'] = 7
+            r.meta.clear()
+        before = (str(r), dict(r.meta) if r._meta is not None else None, r.name, [str(m) for m in r.molecules()])
+        c = r.copy()
+        if r._meta is not None and c._meta is r._meta:
+            return f'meta={touch}: the copy shares the metadata dict of the source'
+        d = shared_state(list(r.molecules()) + list(c.molecules()))
+        if d:
+            return f'meta={touch}: {d}'
+        c.meta['edited'] = 'yes'
+        c.name = 'copy'
+        for m in c.molecules():
+            m.meta['edited'] = 'yes'
+            m.add_atom('N')
+        after = (str(r), dict(r.meta) if r._meta is not None else None, r.name, [str(m) for m in r.molecules()])
+        if after[1] == {} and before[1] is None:
+            after = (after[0], None, after[2], after[3])
+        if before != after:
+            return f'meta={touch}: editing the copy changed the source: {before} -> {after}'
+    return None
+
+
 def stereo_state(mol):
     """marks by atom / bond ends, and the connected component of every atom (all bonds)."""
     comp = {}
@@ -482,7 +560,13 @@ def apply_op(objs, op):
         at.x = float(a[2])
         at.y = float(a[3])
     elif name == 'setMeta':
-        m.meta[a[1]] = a[2]
+        if a[1] == 0:          # key 0: a mere read of mol.meta (creates the lazy empty dict) / mol.meta.clear()
+            if a[2]:
+                m.meta.clear()
+            else:
+                m.meta  # noqa
+        else:
+            m.meta[a[1]] = a[2]
     elif name == 'read':
         read_key(m, a[1])
     elif name == 'split':       # only in the property-level search: parts are appended
@@ -691,6 +775,8 @@ def random_op(rng, objs, intxn, malformed=False, allow_skip=True):
         if c == 'setXY' and ids:
             return ['setXY', o, rng.choice(ids), rng.randint(-8, 8), rng.randint(-8, 8)]
         if c == 'setMeta':
+            if rng.random() < 0.35:
+                return ['setMeta', o, 0, rng.randint(0, 1)]      # read mol.meta / clear it
             return ['setMeta', o, rng.randint(1, 3), rng.randint(1, 9)]
         if c == 'read':
             return ['read', o, rng.choice(READ_KEYS if rng.random() < 0.6 else CORE_READS)]
@@ -854,6 +940,14 @@ def neutral_histories(smi):
            [['enter', 0], ['addAtom', 0, 6, -1, 0], ['exitOk', 0]], [['enter', 0], ['addAtom', 0, 6, -1, 0], ['exitExc', 0]],
            [['addAtom', 0, 8, -1, 0], ['addAtom', 0, 6, -1, 0], ['addBond', 0, max(ids) + 1, max(ids) + 2, 1, 0],
             ['delBond', 0, max(ids) + 1, max(ids) + 2, 0]]]
+    # metadata: untouched / read (lazy empty dict) / filled / cleared, then copy, union, aborted and successful blocks
+    for touch in ([], [['setMeta', 0, 0, 0]], [['setMeta', 0, 2, 5]], [['setMeta', 0, 2, 5], ['setMeta', 0, 0, 1]]):
+        out.append(touch + [['copy', 0, 0, 0], ['setMeta', 1, 1, 9], ['setMeta', 0, 3, 3]])
+        out.append(touch + [['copy', 0, 1, 1], ['setMeta', 0, 1, 9], ['setMeta', 1, 0, 1]])
+        out.append(touch + [['copy', 0, 0, 0], ['union', 0, 1, 1, 1], ['setMeta', 2, 1, 9], ['setMeta', 1, 1, 4]])
+        out.append(touch + [['enter', 0], ['setMeta', 0, 1, 9], ['exitExc', 0], ['setMeta', 0, 0, 0]])
+        out.append(touch + [['enter', 0], ['setMeta', 0, 0, 0], ['setMeta', 0, 1, 9], ['exitOk', 0]])
+        out.append(touch + [['substructure', 0, 1, ids[:max(1, len(ids) // 2)]], ['setMeta', 1, 1, 9]])
     for a, b, bond in m.bonds():
         if int(bond) == 8:
             out.append(rd + [['delBond', 0, a, b, 0]] + rd)
@@ -974,19 +1068,27 @@ def correspond(ctx):
     ctx.dist('rollback-histories', len(cases))
     # 0c. coordinate-bond and neutral-operation histories; several edits in one successful block
     cases = []
-    for smi in ANY_SEEDS + DEPENDENT_STEREO_SEEDS[:2] + STEREO_SEEDS[:2]:
+    for smi in ANY_SEEDS + DEPENDENT_STEREO_SEEDS[:2] + STEREO_SEEDS[:2] + ALPHABET_SEEDS[:2]:
         for h in neutral_histories(smi):
             cases.append(('neutral', smi, h))
     for smi in ['CCO.CCN', 'CC[O-]', 'C1CC1CN', 'CCOCC.CN']:
         for h in txn_multi_edit_histories(smi):
             cases.append(('multi-edit', smi, h))
     run_batch(ctx, cases, 'neutral-anybond-multiedit')
+    # 0c'. ReactionContainer.copy independence (anchored file chython/containers/reaction.py; not part of the model)
+    try:
+        d = reaction_copy_independent()
+    except Exception as e:   # noqa
+        d = f'reaction copy check raised {type(e).__name__}: {e}'
+    ctx.count(('reaction-copy',), n=4)
+    if d:
+        ctx.fail('C13/not-independent/reaction-copy', d, {'reaction': 'CC(=O)O.OC>>CC(=O)OC.O', 'check': 'reaction_copy_independent'})
     # 0d. property oracle on the real code for what the model does not represent (stereo labels, created objects):
     #     neutral operations, rollbacks and random histories on stereo / coordinate-bond seeds; a failure here is a failing input
     t1 = time.time()
     n_or = 0
     oracle_cases = []
-    for smi in DEPENDENT_STEREO_SEEDS + STEREO_SEEDS + ANY_SEEDS:
+    for smi in ALPHABET_SEEDS[:2] + DEPENDENT_STEREO_SEEDS + STEREO_SEEDS + ANY_SEEDS:
         try:
             hs = neutral_histories(smi)
         except Exception:
@@ -1152,6 +1254,9 @@ def oracle(smi, ops):
                 return (f'C13/not-independent/{field}', f'op {i} {op} on object {o} changed {field} of object {j}')
         if not all(symmetric(x) for x in objs):
             return (f'C13/asymmetric-adjacency/{name}', f'after op {i} {op} the adjacency is not symmetric')
+        d = shared_state(objs)
+        if d:
+            return (f'C13/shared-mutable-state/{d.split(" shared")[0].replace(" ", "-")}', f'after op {i} {op}: {d}')
         if exc is None and name != 'exitExc':
             ref_state = txn_stereo.pop(o, None) if name == 'exitOk' else st_before
             # only for stereo-settled objects: hydrogens rule-based (not copied by substructure(recalculate_hydrogens=False),
@@ -1286,6 +1391,9 @@ def search(ctx):
 
 
 def probe(inp):
+    if inp.get('check') == 'reaction_copy_independent':
+        d = reaction_copy_independent()
+        return bool(d), d or 'ReactionContainer.copy is independent of its source (metadata, name, molecules)'
     r = oracle(inp['seed'], [list(o) if not isinstance(o, list) else o for o in _fix_ops(inp['ops'])])
     if r:
         return True, f'{r[0]}: {r[1]}'
